@@ -23,14 +23,15 @@ enum Family
     F_GBUCK = 9,      // SymGEigsShiftSolver<Buckling>
     F_GCAYLEY = 10,   // SymGEigsShiftSolver<Cayley>
     F_SVD = 11,       // PartialSVDSolver
-    F_COUNT = 12
+    F_DAVIDSON = 12,  // DavidsonSymEigsSolver directly on Dense/SparseSymMatProd (C20 only: no operator seam)
+    F_COUNT = 13
 };
 inline const char* family_name(int f)
 {
     static const char* n[] = {"SymEigsSolver", "HermEigsSolver", "SymEigsShiftSolver", "GenEigsSolver",
                               "GenEigsRealShiftSolver", "GenEigsComplexShiftSolver", "SymGEigsSolver<Cholesky>",
                               "SymGEigsSolver<RegularInverse>", "SymGEigsShiftSolver<ShiftInvert>",
-                              "SymGEigsShiftSolver<Buckling>", "SymGEigsShiftSolver<Cayley>", "PartialSVDSolver"};
+                              "SymGEigsShiftSolver<Buckling>", "SymGEigsShiftSolver<Cayley>", "PartialSVDSolver", "DavidsonSymEigsSolver"};
     return (f >= 0 && f < F_COUNT) ? n[f] : "?";
 }
 inline bool family_is_general(int f) { return f == F_GEN || f == F_GENRSHIFT || f == F_GENCSHIFT; }
